@@ -11,8 +11,22 @@ HARNESSES = [dict(name="session", pkg="./pkg/session/", test="TestVerifC17", fil
              dict(name="pppoe", pkg="./internal/pppoe/", test="TestVerifC17Callers", timeout=600,
                   files=[("internal/pppoe/zz_verif_c17_test.go", "harness/C17/zz_verif_c17_pppoe_test.go")])]
 MODEL_NEEDS_IMPL = True
-# No model variants: the one recorded finding (eviction-kills-displacing-session) is fixed in /repo 94649ad; the model is what HEAD
-# does, a regression to the old behaviour is a VIOLATION.
+# Model variants (only e2e and pppoe caller cases depend on them).  "repaired" = every recorded repair; the others lack
+# one or both of the two repairs still proposed (see KNOWN_FINDINGS.txt); /repo HEAD today = "unclaimed_and_superseded".
+# The repair of eviction-kills-displacing-session (94649ad) is part of every variant: a regression there is a VIOLATION.
+VARIANTS = ["repaired", "unclaimed_paths", "superseded_survives", "unclaimed_and_superseded"]
+SIGS = {"unclaimed_paths": "ipoe-session-without-claim", "superseded_survives": "pppoe-superseded-session-survives",
+        "unclaimed_and_superseded": "ipoe-session-without-claim+pppoe-superseded-session-survives"}
+
+
+def signature(case, impl, models):
+    """the weakest set of open findings that explains the implementation's line"""
+    if not case.startswith(("e2e", "pppoe")):
+        return None
+    for v in VARIANTS[1:]:
+        if impl == models.get(v):
+            return SIGS[v]
+    return None
 RULE = ("seq: random sequential histories (1..40 ops) of Claim/Release/IsOwner/Lookup by 2..5 sessions of both protocols "
         "(plus rare foreign protocol strings, empty session ids, Owner.Key different from the claimed key) over 1..4 tuples "
         "drawn from a pool with colliding and non-colliding shard hashes, same MAC on different C-VLANs, VLAN 0/65535; "
@@ -247,11 +261,14 @@ def route(case):
 def gen_e2e(rng):
     """real ipoe + pppoe components on one registry and one bus: DISCOVER / PADI+PADR on 1..2 tuples"""
     ts = rng.sample([0, 1, 2, 3], rng.choice([1, 1, 2]))
-    return "e2e " + " ".join(rng.choice("DP") + str(rng.choice(ts)) for _ in range(rng.randint(2, 6)))
+    return "e2e " + " ".join(rng.choice("DDQSPPP") + str(rng.choice(ts)) for _ in range(rng.randint(2, 6)))
 
 
 E2E_FIXED = ["e2e D0 P0", "e2e P0 D0", "e2e D0 D0", "e2e P0 P0", "e2e D0 P0 D0 P0", "e2e P1 D1 P1", "e2e D0 P1 P0 D1",
-             "e2e D2 P0 P2", "e2e P3 P3 D3", "e2e D3 P3 P3 D3"]
+             "e2e D2 P0 P2", "e2e P3 P3 D3", "e2e D3 P3 P3 D3",
+             # every ipoe creation path against pppoe, both orders; packets of an existing session
+             "e2e Q0 P0", "e2e S0 P0", "e2e P0 Q0", "e2e P0 S0", "e2e Q0 D0 P0", "e2e S1 Q1 D1", "e2e D2 Q2 S2 P2",
+             "e2e Q3 P3 S3", "e2e P0 P0 P0 Q0 P0"]
 
 
 def gen_callers(rng, who):
@@ -364,7 +381,7 @@ def nontrivial(case, out):
         return True
     if case.startswith("e2e"):
         t = case.split()[1:]
-        return any(a[0] != b[0] and a[1] == b[1] for a, b in zip(t, t[1:]))    # a cross-protocol takeover
+        return any((a[0] == "P") != (b[0] == "P") and a[1] == b[1] for a, b in zip(t, t[1:]))    # a cross-protocol takeover
     if case.startswith(("ipoe", "pppoe")):
         return "@" in out
     if case.startswith("seq"):
@@ -381,6 +398,8 @@ def classify(case, impl, model):
         return "P", "the implementation panicked: %s" % impl[:200]
     if case.startswith("wgl"):
         return "G", "self-test of the linearizability checker failed: expected %s, the driver says %s" % (impl, model)
+    if case.startswith("e2e") and ("!unsettled" in impl or impl.startswith("panic no_P")):
+        return "G", "end-to-end run did not settle / no PADO-PADS within the harness deadline: %s" % impl[:200]
     if case.startswith("e2e"):
         it, mt, ops = impl.split(), model.split(), case.split()[1:]
         for i, (a, b) in enumerate(zip(it, mt)):
@@ -463,7 +482,7 @@ def shrink(case):
 
 def distribution(cases, impl):
     d = {"seq": 0, "conc": 0, "rconc": 0, "ipoe": 0, "pppoe": 0, "wgl": 0, "wgl_reject": 0, "e2e": 0, "e2e_ops": 0,
-         "e2e_cross_protocol_takeovers": 0, "e2e_both_gone_after_takeover": 0, "caller_claims": 0, "caller_releases": 0, "gated_call_sites": 0, "gate_fired_inside": 0,
+         "e2e_cross_protocol_takeovers": 0, "e2e_both_gone_after_takeover": 0, "e2e_both_protocols_live": 0, "caller_claims": 0, "caller_releases": 0, "gated_call_sites": 0, "gate_fired_inside": 0,
          "eviction_events": 0, "ops": 0, "claim": 0, "release": 0, "isowner": 0, "lookup": 0,
          "shard_obs": 0, "count_obs": 0, "makekey": 0, "alias_reread": 0, "alias_scribble": 0, "displaced_reported": 0, "claims_nil": 0,
          "conc_ops": 0, "conc_with_overlap": 0, "overlapping_same_tuple_pairs": 0, "overlapping_claim_claim_pairs": 0, "overlapping_claim_release_pairs": 0, "max_threads": 0,
@@ -481,9 +500,11 @@ def distribution(cases, impl):
             ops, res = t[1:], o.split()
             d["e2e_ops"] += len(ops)
             for i in range(1, len(ops)):
-                if ops[i][0] != ops[i - 1][0] and ops[i][1] == ops[i - 1][1] and i < len(res):
+                if (ops[i][0] == "P") != (ops[i - 1][0] == "P") and ops[i][1] == ops[i - 1][1] and i < len(res):
                     d["e2e_cross_protocol_takeovers"] += 1
-                    d["e2e_both_gone_after_takeover"] += res[i].endswith(":i0p0:-")
+                    first = res[i].split(",")[0]
+                    d["e2e_both_gone_after_takeover"] += first.endswith(":i0p0:-")
+                    d["e2e_both_protocols_live"] += ":i0" not in first and "p0:" not in first
             continue
         if t[0] in ("ipoe", "pppoe"):
             for op, r in zip(split_ops(t[1:]), o.split()):
